@@ -138,6 +138,16 @@ def check_case(prop, case, il, ml, ctx):
                     probs.append("printing the typed result differs from the text API on the printed input")
             _nontrivial(ctx, case, I.get("m", "").split("/")[-1] != I.get("p"))
             _kind(ctx, "Y:parsed")
+    elif op == "A":
+        _eq(probs, "A/print", I.get("p", ""), M.get("p", ""))
+        if I.get("rt") != "1":
+            probs.append("parsing the printed trace does not return an equal trace")
+        if I.get("rp") != "1":
+            probs.append("printing the re-parsed trace does not return the same text")
+        if M.get("rt") != "1" or M.get("rp") != "1":
+            probs.append("MODEL: the trace does not round-trip in the model (outside wf_trace?)")
+        _nontrivial(ctx, case, " c " in case or " f:" in case)
+        _kind(ctx, "A:depth" + str(case.count(" c ")))
     elif op == "W":
         _eq(probs, "cache bytes", I.get("w", ""), M.get("w", ""))
         if mode == "spec" and I.get("test") != "ok":
@@ -190,29 +200,114 @@ def extra_checks(prop, tier, seed, harness, sh):
 
 NOT_APPLICABLE = {}
 
+NOTE_STD = ("Trusted: Coq 8.16.1 kernel, extraction (ExtrOcamlBasic only), model/driver.ml, the Rust harness and "
+            "tools/vcheck.py+registry.py; the model-equals-code step is a sampled differential correspondence, not a "
+            "proof. No axioms (Print Assumptions: closed).")
+
+
+def P(theorems, text, rule, status, **kw):
+    d = {"theorems": theorems, "level_text": text, "level_note": kw.pop("note", NOTE_STD), "rule": rule, "status": status}
+    d.update(kw)
+    return d
+
+
 PROPS = {
-    "C06": {
-        "theorems": ["C06_progress", "C06_items_bound", "C06_no_terminator", "C06_isolation"],
-        "level_text": "Theorems about the slice-based parser model (progress of the iterator, at most one item per byte; "
-                      "isolation and terminator-freedom as they are added) hold for every byte string; the model is tied to "
-                      "src/mapping.rs by comparing complete record streams on generated inputs.",
-        "level_note": "Trusted: Coq kernel, extraction (ExtrOcamlBasic), model/driver.ml, harness, the sampled "
-                      "correspondence model = code. No axioms.",
-        "rule": "byte strings from the grammar generator (wild domain), token mutator, token soups, raw bytes; "
-                "non-trivial = the record stream contains at least one item; distinct by input bytes",
-        "status": "all four clauses proved at full strength (progress, item bound, no terminator in any yielded component, isolation on Ok-records for LF/CR/CRLF)",
-        "assumptions": ["the slice based parser model equals src/mapping.rs (checked by the record-stream correspondence)"],
-    },
-    "C05": {"theorems": [], "level_text": "", "level_note": "", "rule": ""},
-    "C11": {"theorems": [], "level_text": "", "level_note": "", "rule": ""},
+    "C01": P(["C01_mapper", "C01_mapper_file", "C01_index_irrelevant", "C01_unknown_class", "C01_terminator_style", "C01_noise_line"],
+             "Theorems: the mapper model returns exactly the declarative specification Sline for every record list "
+             "(all classes, methods, lines, files), with or without parameter index; the records - hence the answer - "
+             "do not depend on terminator style or unparseable lines. Mapper, mapper-without-index and cache of the "
+             "implementation are compared with the extracted specification on generated and corpus mappings.",
+             "grammar mappings in the representable domain (inline groups, duplicate class names, sourceFile headers, "
+             "zero/inverted/overlapping ranges, noise, LF/CRLF/CR) x frames over the file's name universe x lines "
+             "(range boundaries +-1, interiors, 0..66 sample, extremes) x file present/absent; non-trivial = answer "
+             "has at least one frame; distinct by (mapping, query)",
+             "mapper side proved at full strength; cache side: see C02 (cache = spec refinement)"),
+    "C03": P(["C03_mapper", "C03_spec_properties"],
+             "Theorems: the mapper built with parameter index answers parameter queries exactly as the specification "
+             "Sparams (non-inlined entries, de-duplicated per class block by (obf,args,orig), file order); the "
+             "specification itself has no duplicates, no inlined callees and depends only on the class block. "
+             "Mapper and cache of the implementation are compared with the extracted Sparams.",
+             "grammar mappings (inline groups, overloads, repeated entries across classes, empty argument lists) x all "
+             "(class, method, params) triples of the file plus unknown values; non-trivial = non-empty answer",
+             "mapper side proved at full strength; cache side: see C02"),
+    "C04": P(["C04_class_mapper", "C04_method_mapper", "C04_consistent"],
+             "Theorems: class lookup = original name of the last class line with exactly that obfuscated name, else "
+             "nothing; method lookup answers iff all entries agree, and then every line-based frame carries that "
+             "method name. Mapper and cache are compared with the extracted Sclass/Smethod.",
+             "grammar mappings, every 10th with up to 150 classes over adversarially similar names (prefixes, $ and . "
+             "variants, non-ASCII, duplicates) x every name in the file, sort neighbours, unknown names; "
+             "non-trivial = lookup succeeds",
+             "mapper side proved at full strength; cache side: see C02"),
+    "C05": P(["C05_line_roundtrip", "C05_line_in_file", "C05_missing_class_colon", "C05_unspaced_arrow",
+              "C05_wrong_indentation", "C05_start_without_end", "C05_missing_return_type"],
+             "Theorems: every line printed from the grammar AST (headers, sourceFile header, class, field, method with "
+             "every optional group) parses to exactly record_of(AST), alone with any of the four terminators and as "
+             "part of a file; the five documented malformations give errors carrying the line. The implementation is "
+             "compared with the model and with the generator's own expectation on AST-generated lines and on every "
+             "corpus line.",
+             "lines printed from random record ASTs (identifier alphabets with $ < > - [] digits non-ASCII, numbers to "
+             "2^40, all optional groups, terminators none/LF/CRLF/LFLF), their documented malformations, lines inside "
+             "3-line files, and corpus lines; non-trivial = parses to a record",
+             "all clauses proved; wf_line is the (liberal) boolean domain of the theorem"),
+    "C06": P(["C06_progress", "C06_items_bound", "C06_no_terminator", "C06_isolation"],
+             "Theorems about the slice-based parser model for EVERY byte string: the iterator always advances, yields "
+             "at most one item per byte, no yielded component contains CR/LF, and records(A + newline + B) = "
+             "records(A) ++ records(B) for LF, CR and CRLF. The model is tied to src/mapping.rs by comparing complete "
+             "record streams.",
+             "byte strings from the grammar generator (wild domain), token mutator, token soups, raw bytes; "
+             "non-trivial = the record stream contains at least one item; distinct by input bytes",
+             "all four clauses proved at full strength"),
+    "C07": P(["C07_line_by_line", "C07_unknown_classes_identity", "C07_empty_mapping_identity", "C07_frame_slice_in_bounds"],
+             "Theorems about the text remapping loop (one function of the two lookups): the output is the in-order "
+             "concatenation of one chunk per input line, each chunk being the line itself, a remapped throwable (first "
+             "line or behind 'Caused by: '), or the remapped frames; with lookups that know none of the trace's classes "
+             "the output is the input with normalised terminators. Mapper and cache outputs are compared with the model "
+             "instantiated with the specification lookups.",
+             "representable mappings x trace-like texts (cause chains, tab/space indentation, '... n more', Native "
+             "Method frames, messages with ': ' or frame-like text, blank lines, Unicode whitespace, CRLF, missing final "
+             "newline); non-trivial = output differs from the input text",
+             "all clauses proved"),
+    "C08": P(["C08_same_depth", "C08_node_by_node", "C08_typed_print_is_text", "C08_typed_print_is_text_b"],
+             "Theorems: typed remapping preserves the cause-chain depth, maps node by node (exception remapped or kept, "
+             "each frame replaced by its remapped frames or kept), and for canonical printed traces printing the typed "
+             "result equals the text API's output. Mapper and cache are compared with the model, and the property's own "
+             "clauses are evaluated on the implementation's answers.",
+             "representable mappings x canonical traces (depth 0..4, mapped/unmapped throwables with/without message, "
+             "mapped/unmapped frames); non-trivial = typed output differs from the input print",
+             "all clauses proved"),
+    "C11": P(["C11_prefix_rejected", "C11_magic_flipped", "C11_magic_other", "C11_version_other",
+              "C11_accepted_iff_long_enough", "C11_roundtrip"],
+             "Theorems about the byte layer: every strict prefix of a written file is rejected with the error kind of "
+             "the first section that does not fit; flipped magic / other magic / other version give the endianness / "
+             "format / version error for any buffer; a buffer is accepted iff it is as long as its header implies. "
+             "The implementation's ProguardCache::parse is compared with the model on every prefix and header edit.",
+             "generated cache files (quick: <= 2 KB) x every prefix length x every single-field header edit (0, +-1, "
+             "+1000, 2^31, 2^32-1, byte-swapped); oracle on the implementation = the property's disjunction (rejected, or "
+             "answers as the full file), error kinds compared with the model; non-trivial = buffer rejected with a kind",
+             "all clauses proved (model theorem is the stronger 'every strict prefix is rejected')",
+             assumptions=["buffers are 8-aligned (the harness always passes aligned buffers)"]),
+    "C16": P(["C16_valid_descriptor", "C16_formatted", "C16_invalid_no_open_paren", "C16_invalid_no_close_paren",
+              "C16_invalid_no_return", "C16_invalid_unterminated", "C16_lookups_agree"],
+             "Theorems: every valid descriptor (primitives, objects, nested arrays, any number of parameters) yields one "
+             "rendered Java type per parameter and the return type; format_signature is '(' params joined by ', ' ')' plus "
+             "': ret' unless void; strings without parentheses, without return type or with an unterminated object type "
+             "yield nothing; the result depends on the mapping only through the class lookup. Both Rust copies are "
+             "compared with the model.",
+             "representable mappings x descriptors over primitive, object (mapped, unmapped, names like I, Lib, x/Long, "
+             "non-ASCII) and nested array types with 0..6 parameters, single-edit corruptions, hand-written invalid "
+             "strings; non-trivial = descriptor accepted",
+             "all clauses proved"),
+    "C17": P(["C17_frame_roundtrip", "C17_throwable_roundtrip", "C17_trace_roundtrip", "C17_reprint_same_text",
+              "C17_throwable_condition"],
+             "Theorems: parse(print t) = t and print(parse(print t)) = print t for every well-formed trace of any depth "
+             "and frame count, and for single frames and throwables. The implementation builds the trace through the "
+             "public constructors, prints, parses and reprints; text and round-trip flags are compared with the model.",
+             "trace ASTs (depth 0..4, 0..20 frames, lines 0..2^64-1, top-level exception present/absent, messages "
+             "containing ': ', 'Caused by: ', frame-like text, <init>, non-ASCII, $) plus single frame / throwable lines; "
+             "non-trivial = trace with a frame or a cause",
+             "all clauses proved; wf_trace is the boolean domain (necessity of each condition shown by counterexamples)"),
+    "C02": {"theorems": [], "level_text": "", "level_note": "", "rule": ""},
     "C12": {"theorems": [], "level_text": "", "level_note": "", "rule": ""},
     "C13": {"theorems": [], "level_text": "", "level_note": "", "rule": "", "oracle": "model"},
-    "C07": {"theorems": [], "level_text": "", "level_note": "", "rule": ""},
-    "C08": {"theorems": [], "level_text": "", "level_note": "", "rule": ""},
-    "C16": {"theorems": [], "level_text": "", "level_note": "", "rule": ""},
-    "C01": {"theorems": [], "level_text": "", "level_note": "", "rule": ""},
-    "C02": {"theorems": [], "level_text": "", "level_note": "", "rule": ""},
-    "C03": {"theorems": [], "level_text": "", "level_note": "", "rule": ""},
-    "C04": {"theorems": [], "level_text": "", "level_note": "", "rule": ""},
     "C19": {"theorems": [], "level_text": "", "level_note": "", "rule": ""},
 }
